@@ -12,6 +12,7 @@ import (
 	"github.com/ajitpratap0/GoSQLX/pkg/sql/ast"
 	"github.com/ajitpratap0/GoSQLX/pkg/sql/keywords"
 	"github.com/ajitpratap0/GoSQLX/pkg/sql/parser"
+	"github.com/ajitpratap0/GoSQLX/pkg/sql/token"
 	"github.com/ajitpratap0/GoSQLX/pkg/sql/tokenizer"
 	"pgregory.net/rapid"
 	"verif/gen/corrupt"
@@ -55,8 +56,14 @@ func tokDump(toks []models.TokenWithSpan, comments []models.Comment, err error) 
 	return astdump.Dump(toks) + " COMMENTS " + astdump.Dump(comments)
 }
 
-func tokenizeOn(tkz *tokenizer.Tokenizer, sql string) ([]models.TokenWithSpan, string) {
-	toks, err := tkz.Tokenize([]byte(sql))
+func tokenizeOn(tkz *tokenizer.Tokenizer, sql string, viaCtx bool) ([]models.TokenWithSpan, string) {
+	var toks []models.TokenWithSpan
+	var err error
+	if viaCtx {
+		toks, err = tkz.TokenizeContext(context.Background(), []byte(sql))
+	} else {
+		toks, err = tkz.Tokenize([]byte(sql))
+	}
 	cs := append([]models.Comment(nil), tkz.Comments...)
 	return toks, tokDump(toks, cs, err) + " DIALECT " + string(tkz.Dialect())
 }
@@ -73,6 +80,19 @@ func parseOn(p *parser.Parser, toks []models.TokenWithSpan, entry string, k int)
 		t, err = p.ParseFromModelTokensWithPositions(toks)
 	case "cancelled":
 		t, err = p.ParseContextFromModelTokens(cctx.New(k, context.Canceled), toks)
+	case "recovery_tokens":
+		// Parser.ParseWithRecovery takes parser tokens: those of a fixed valid script with the k-th token
+		// dropped, i.e. a script with one syntax error somewhere (or none when k is past the end)
+		pt := append([]token.Token(nil), recoveryTokens...)
+		if k < len(pt)-1 {
+			pt = append(pt[:k], pt[k+1:]...)
+		}
+		stmts, errs := p.ParseWithRecovery(pt)
+		var es []string
+		for _, e := range errs {
+			es = append(es, e.Error())
+		}
+		return "RECOVERY-TOKENS " + astdump.Dump(stmts) + " ERRS " + strings.Join(es, " || ")
 	case "recovery":
 		stmts, errs := p.ParseWithRecoveryFromModelTokens(toks)
 		var es []string
@@ -86,6 +106,15 @@ func parseOn(p *parser.Parser, toks []models.TokenWithSpan, entry string, k int)
 	}
 	return "TREE " + astdump.Dump(t.Statements) + " DIALECT " + p.Dialect()
 }
+
+// recoveryTokens: the parser tokens of a small valid script (obtained from the library once).
+var recoveryTokens = func() []token.Token {
+	_, toks, err := parser.ParseBytesWithTokens([]byte("SELECT a , b FROM t1 WHERE c = 1 ; UPDATE t2 SET d = 2 WHERE e IN ( 3 , 4 ) ; SELECT f FROM t3"))
+	if err != nil {
+		panic(err)
+	}
+	return toks
+}()
 
 func freshParser(c config) *parser.Parser {
 	var opts []parser.ParserOption
@@ -186,10 +215,11 @@ func run(h History) error {
 			cfg.tkzDialSet = false
 		case "probe":
 			// tokenizer probe
-			toks, got := tokenizeOn(tkz, op.SQL)
-			ftoks, want := tokenizeOn(freshTokenizer(cfg), op.SQL)
+			viaCtx := op.K%2 == 1 // both tokenizing entry points are probed
+			toks, got := tokenizeOn(tkz, op.SQL, viaCtx)
+			ftoks, want := tokenizeOn(freshTokenizer(cfg), op.SQL, viaCtx)
 			if got != want {
-				return fmt.Errorf("step %d: tokenizing %q on the used tokenizer differs from a fresh one: %s", i, clip(op.SQL), astdump.Diff(got, want))
+				return fmt.Errorf("step %d: tokenizing %q (TokenizeContext=%v) on the used tokenizer differs from a fresh one: %s", i, clip(op.SQL), viaCtx, astdump.Diff(got, want))
 			}
 			if ftoks == nil {
 				continue
@@ -268,7 +298,7 @@ func smallFeatures() sqlgen.Features {
 }
 
 func genProbe(rt *rapid.T) Op {
-	entry := rapid.SampledFrom([]string{"plain", "ctx", "pos", "recovery", "cancelled"}).Draw(rt, "probeentry")
+	entry := rapid.SampledFrom([]string{"plain", "ctx", "pos", "recovery", "cancelled", "recovery_tokens"}).Draw(rt, "probeentry")
 	var sql string
 	switch rapid.IntRange(0, 6).Draw(rt, "probekind") {
 	case 5:
@@ -284,6 +314,8 @@ func genProbe(rt *rapid.T) Op {
 	default:
 		sql, _ = genSQL(rt, "probesql")
 	}
+	// leading blanks and tabs: column bookkeeping left over from the previous input would show here
+	sql = rapid.SampledFrom([]string{"", "", "\t", "  ", "\t\t ", "          ", " \t", "\n\t"}).Draw(rt, "probelead") + sql
 	return Op{Kind: "probe", SQL: sql, Entry: entry, K: rapid.IntRange(0, 12).Draw(rt, "probek")}
 }
 
@@ -313,7 +345,7 @@ func genReuseHistory(rt *rapid.T) History {
 			failing = true
 		case 3, 4, 5, 6, 7:
 			s, cl := genSQL(rt, "parsesql")
-			e := rapid.SampledFrom([]string{"plain", "ctx", "pos", "recovery", "cancelled"}).Draw(rt, "entry")
+			e := rapid.SampledFrom([]string{"plain", "ctx", "pos", "recovery", "cancelled", "recovery_tokens"}).Draw(rt, "entry")
 			op = Op{Kind: "parse", SQL: s, Entry: e, K: rapid.IntRange(0, 12).Draw(rt, "k")}
 			kinds = append(kinds, "parse_"+e+"_"+cl)
 			if cl != "valid" || e == "cancelled" {
